@@ -16,3 +16,7 @@ func VerifRoute(svc *protogen.Service, m *protogen.Method) (verb, path string, p
 func VerifGenerate(files []*protogen.File) error {
 	return New(&protogen.Plugin{Files: files}).Generate()
 }
+
+// VerifGenerateWith runs the Go client generator with the given plugin (so that the
+// caller can read the emission trace of exactly this generator).
+func VerifGenerateWith(p *protogen.Plugin) error { return New(p).Generate() }
